@@ -22,6 +22,8 @@ structure Tick where
 inductive Disp
   | propagate      -- `?` / tail expression: the error leaves the operation
   | swallow        -- the error is logged as a validation failure and the operation continues
+  | discard        -- the error is dropped silently (`.ok()`, `let _ =`, `unwrap_or…`): the
+                   -- operation continues and nothing is logged (crypto/ocsp/fetch.rs `.ok()?`)
   deriving DecidableEq, Repr
 
 structure Site where
@@ -52,6 +54,7 @@ def run (cb : Option Cb) (flag : Bool) : List Site → Nat → Bool → Outcome
     else match s.disp with
       | .propagate => .cancelled i'
       | .swallow => run cb flag rest i' true
+      | .discard => run cb flag rest i' logged
 
 /-- `check_progress` when the callback itself calls `Context::cancel()` during invocation
 `flagAt`: the flag is tested *after* the callback, so that very checkpoint already fails. -/
@@ -68,6 +71,7 @@ def runF (cb : Cb) (flagAt : Nat) : List Site → Nat → Bool → Bool → Outc
     else match s.disp with
       | .propagate => .cancelled i'
       | .swallow => runF cb flagAt rest i' flag' true
+      | .discard => runF cb flagAt rest i' flag' logged
 
 def AllPropagate (sites : List Site) : Prop := ∀ s ∈ sites, s.disp = .propagate
 
@@ -81,15 +85,124 @@ def traceWf : List Tick → Bool
   | t :: u :: rest =>
     tickOk t && (t.phase != u.phase || t.step < u.step || u.step == 1) && traceWf (u :: rest)
 
+/-- Strict variant: within consecutive ticks of one phase the step strictly increases; a
+restart at 1 is accepted only directly after a tick that completed its phase (`step = total`,
+total non-zero) — the per-box / per-range hash passes of box-hash and BMFF verification. A
+counter that does not advance (1,1 of 3 …) is ill-formed. -/
+def stepOk (t u : Tick) : Bool :=
+  t.phase != u.phase || t.step < u.step || (u.step == 1 && t.step == t.total)
+
+def traceWfStrict : List Tick → Bool
+  | [] => true
+  | [t] => tickOk t
+  | t :: u :: rest => tickOk t && stepOk t u && traceWfStrict (u :: rest)
+
+/-! ### a schedule of the cancel flag
+`flagAt i` = the value of the cancel flag that checkpoint `i` observes after its callback
+returned (set by the callback itself, by another thread while the callback ran, or by another
+thread at any time since the previous checkpoint). -/
+
+def checkProgressS (cb : Cb) (flagAt : Nat → Bool) (i : Nat) : Bool × Nat :=
+  (cb i && !flagAt i, i + 1)
+
+def runS (cb : Cb) (flagAt : Nat → Bool) : List Site → Nat → Bool → Outcome
+  | [], i, logged => .finished i logged
+  | s :: rest, i, logged =>
+    let (ok, i') := checkProgressS cb flagAt i
+    if ok then runS cb flagAt rest i' logged
+    else match s.disp with
+      | .propagate => .cancelled i'
+      | .swallow => runS cb flagAt rest i' true
+      | .discard => runS cb flagAt rest i' logged
+
+/-! ### the tick emitters of the source
+
+* `Store::ingredient_checks` (store.rs): `ingredient_step += 1;
+  check_progress(VerifyingIngredient, ingredient_step, total_ingredients)` once per ingredient
+  assertion of the claim, in order.
+* `hash_stream_by_alg_with_progress_impl` (hash_utils.rs; C13 `ticks T n`): `(1,T) … (n,T)`,
+  n ≤ T (n = T for a completed run).
+* `BmffHash::progress_tick` (bmff_hash.rs): `*step += 1; progress(*step, 0)`.
+* the BMFF closure of `Claim::verify_hash_binding` (claim.rs): own counter, total passed on:
+  `|_s, t| { step += 1; check_progress(VerifyingAssetHash, step, t) }`.
+* nested ingredient levels: for an ingredient that has a manifest in the store,
+  `Claim::verify_claim` (one VerifyingSignature tick) and then the recursive
+  `ingredient_checks` of that claim run between tick i and tick i+1 of the parent level. -/
+
+def ingredientTicks (n : Nat) : List Tick :=
+  (List.range n).map fun i => ⟨"VerifyingIngredient", i + 1, n⟩
+
+def hashTicks (phase : String) (T n : Nat) : List Tick :=
+  (List.range n).map fun i => ⟨phase, i + 1, T⟩
+
+def zeroTicks (phase : String) (n : Nat) : List Tick :=
+  (List.range n).map fun i => ⟨phase, i + 1, 0⟩
+
+/-- the re-counting closure: the k-th inner tick (s,t) is reported as (from+k+1, t) -/
+def recount (phase : String) : Nat → List Tick → List Tick
+  | _, [] => []
+  | k, t :: rest => ⟨phase, k + 1, t.total⟩ :: recount phase (k + 1) rest
+
+/-- ingredient tree of a claim: each ingredient assertion is plain (no manifest in the store)
+or refers to a manifest whose claim has its own list of ingredient assertions -/
+inductive Ing
+  | plain
+  | manifest (children : List Ing)
+
+/-- the VerifyingSignature tick of `Claim::verify_claim` -/
+def sigTick : Tick := ⟨"VerifyingSignature", 1, 1⟩
+
+mutual
+  /-- ticks caused by one ingredient after its own VerifyingIngredient tick: the signature tick of
+  its claim and of every claim below it. Nested `ingredient_checks` levels (depth > 0) report no
+  VerifyingIngredient progress (store.rs `if depth == 0`; fix C23-nested-ingredient-progress). -/
+  def sigTicks : Ing → List Tick
+    | .plain => []
+    | .manifest cs => sigTick :: sigTicksL cs
+  def sigTicksL : List Ing → List Tick
+    | [] => []
+    | c :: rest => sigTicks c ++ sigTicksL rest
+end
+
+/-- ticks of the top-level `ingredient_checks` (depth 0) for ingredient list `cs` of a claim with
+`n` ingredient assertions, from step `i` -/
+def emitTop (n : Nat) : Nat → List Ing → List Tick
+  | _, [] => []
+  | i, c :: rest => ⟨"VerifyingIngredient", i + 1, n⟩ :: (sigTicks c ++ emitTop n (i + 1) rest)
+
+def emitClaim (cs : List Ing) : List Tick := emitTop cs.length 0 cs
+
+mutual
+  /-- the emitter **before** the fix: every level reported its own (step, total) -/
+  def emitLevelOld (n : Nat) : Nat → List Ing → List Tick
+    | _, [] => []
+    | i, c :: rest => ⟨"VerifyingIngredient", i + 1, n⟩ :: (emitIngOld c ++ emitLevelOld n (i + 1) rest)
+  def emitIngOld : Ing → List Tick
+    | .plain => []
+    | .manifest cs => sigTick :: emitLevelOld cs.length 0 cs
+end
+
+def emitClaimOld (cs : List Ing) : List Tick := emitLevelOld cs.length 0 cs
+
 /-! ### line protocol
 `cancel n=<callbacks in the uncancelled run> k=<index answered false>` → `cancelled <k+1>`
 `cancelin n=<…> k=<index whose callback calls Context::cancel()>` → `cancelled <k+1>`
 `flag n=<…>` → `cancelled 1` (flag set before the operation; callback still invoked once)
-`wf trace=<phase:step:total,…>` → `wf` | `bad`
+`wf trace=<phase:step:total,…>` → `wf` | `bad`   (strict rule)
+`seq mode=<false|cancel|thread> k=<k> sites=<file:line,…>`: the checkpoints the operation reached, as
+  source locations. Every one must be a row of the regenerated table `Gen.sites` (else
+  `unknown-site <file:line>`); the skeleton is built from the table rows (their dispositions)
+  and run with: callback false at k / cancel() inside callback k / cancel() by another thread
+  while callback k runs.
+`ingticks n=<n>` → the VerifyingIngredient ticks of a claim with n plain ingredients
+`ingtree shape=<p|m(..)…>` → the VerifyingIngredient / VerifyingSignature ticks of that tree
 -/
 
 def skeleton (n : Nat) : List Site :=
   List.replicate n { tick := { phase := "x", step := 1, total := 1 }, disp := .propagate }
+
+/-- the checkpoint of a table row -/
+def siteOf (r : String × Nat × Disp) : Site := ⟨⟨r.1, 1, 1⟩, r.2.2⟩
 
 def outStr : Outcome → String
   | .cancelled c => "cancelled " ++ toString c
@@ -102,7 +215,38 @@ def parseTick (s : String) : Option Tick :=
     | _, _ => none
   | _ => none
 
-def handle (toks : List String) : String :=
+def tickStr (t : Tick) : String := t.phase ++ ":" ++ toString t.step ++ ":" ++ toString t.total
+
+def ticksStr (ts : List Tick) : String :=
+  if ts.isEmpty then "-" else ",".intercalate (ts.map tickStr)
+
+/-- `file:line` → the table row, if any -/
+def lookupSite (table : List (String × Nat × Disp)) (s : String) : Option (String × Nat × Disp) :=
+  match s.splitOn ":" with
+  | [f, l] => match l.toNat? with
+    | some n => table.find? (fun r => r.1 == f && r.2.1 == n)
+    | none => none
+  | _ => none
+
+def lookupAll (table : List (String × Nat × Disp)) : List String → Except String (List (String × Nat × Disp))
+  | [] => .ok []
+  | s :: rest => match lookupSite table s with
+    | none => .error s
+    | some r => (lookupAll table rest).map (r :: ·)
+
+/-- shape grammar: `p` plain, `m(` children `)` manifest; parser with fuel = input length -/
+def parseIngs : Nat → List Char → List Ing × List Char
+  | 0, cs => ([], cs)
+  | _, [] => ([], [])
+  | fuel + 1, 'p' :: cs => let (r, rest) := parseIngs fuel cs; (Ing.plain :: r, rest)
+  | fuel + 1, 'm' :: '(' :: cs =>
+    let (kids, rest) := parseIngs fuel cs
+    let (r, rest') := parseIngs fuel rest
+    (Ing.manifest kids :: r, rest')
+  | _, ')' :: cs => ([], cs)
+  | _, cs => ([], cs)
+
+def handleWith (table : List (String × Nat × Disp)) (toks : List String) : String :=
   match toks with
   | "cancel" :: rest =>
     match (field rest "n").toNat?, (field rest "k").toNat? with
@@ -116,9 +260,32 @@ def handle (toks : List String) : String :=
     match (field rest "n").toNat? with
     | some n => outStr (run (some (fun _ => true)) true (skeleton n) 0 false)
     | none => "bad-req"
+  | "seq" :: rest =>
+    match (field rest "k").toNat? with
+    | none => "bad-req"
+    | some k =>
+      match lookupAll table (splitList (field rest "sites") ",") with
+      | .error s => "unknown-site " ++ s
+      | .ok rows =>
+        let sk := rows.map siteOf
+        match field rest "mode" with
+        | "false" => outStr (run (some (fun i => i != k)) false sk 0 false)
+        | "cancel" => outStr (runF (fun _ => true) k sk 0 false false)
+        | "thread" => outStr (runS (fun _ => true) (fun i => decide (k ≤ i)) sk 0 false)
+        | _ => "bad-req"
   | "wf" :: rest =>
     let ts := (splitList (field rest "trace") ",").filterMap parseTick
-    if traceWf ts then "wf" else "bad"
+    if traceWfStrict ts then "wf" else "bad"
+  | "ingticks" :: rest =>
+    match (field rest "n").toNat? with
+    | some n => ticksStr (ingredientTicks n)
+    | none => "bad-req"
+  | "ingtree" :: rest =>
+    let cs := (field rest "shape").toList
+    ticksStr (emitClaim (parseIngs (cs.length + 1) cs).1)
   | _ => "bad-op"
+
+/-- the handler without a table (no source checkpoints known) -/
+def handle (toks : List String) : String := handleWith [] toks
 
 end C2pa.C23
